@@ -33,6 +33,12 @@ func TestC30(t *testing.T) {
 		{"create-fails-start", c10.Op{Kind: "lambda", Pod: 0, Count: 3, CPU: 50, Mem: 100, Lines: 1, Script: ok}, &c10.FaultSpec{Method: "VirtualizationStart", Target: "*", Ord: 1}, 0},
 		{"remove-engine-fails", c10.Op{Kind: "lambda", Pod: 0, Count: 1, CPU: 50, Mem: 100, Lines: 1, Script: ok}, &c10.FaultSpec{Method: "VirtualizationRemove", Target: "*", Ord: 0}, 0},
 		{"alloc-insufficient", c10.Op{Kind: "lambda", Pod: 0, Count: 3, CPU: 50, Mem: 5000, Script: ok}, nil, 0},
+		{"caller-cancels-before-wait", c10.Op{Kind: "lambda", Pod: 0, Count: 1, CPU: 50, Mem: 100, Lines: 2, Script: ok, CancelAt: "VirtualizationWait"}, nil, 1},
+		{"caller-cancels-before-logs", c10.Op{Kind: "lambda", Pod: 1, Count: 1, CPU: 50, Mem: 100, Lines: 1, Script: ok, CancelAt: "VirtualizationLogs"}, nil, 0},
+		{"rpc-plain", c10.Op{Kind: "lambda", Pod: 0, Count: 2, CPU: 50, Mem: 100, Lines: 1, Script: ok, RPC: true}, nil, 0},
+		{"rpc-send-fails-from-first", c10.Op{Kind: "lambda", Pod: 0, Count: 1, CPU: 50, Mem: 100, Lines: 2, Script: ok, RPC: true, RPCSendFailFrom: 1}, nil, 1},
+		{"rpc-send-fails-mid-stream", c10.Op{Kind: "lambda", Pod: 0, Count: 2, CPU: 50, Mem: 100, Lines: 2, Script: ok, RPC: true, RPCSendFailFrom: 3}, nil, 0},
+		{"rpc-stdin-rejected", c10.Op{Kind: "lambda", Pod: 0, Count: 2, CPU: 50, Mem: 100, Stdin: true, Script: ok, RPC: true}, nil, 0},
 		{"wait-call-fails", c10.Op{Kind: "lambda", Pod: 0, Count: 1, CPU: 50, Mem: 100, Lines: 1, Script: ok}, &c10.FaultSpec{Method: "VirtualizationWait", Target: "*", Ord: 0}, 0},
 	}
 	run := func(s scen, tag string) {
@@ -79,6 +85,17 @@ func TestC30(t *testing.T) {
 			}
 		}
 		d0.Close()
+		switch r.Rng.Intn(5) {
+		case 0:
+			if o.Count == 1 && f == nil {
+				o.CancelAt = []string{"VirtualizationWait", "VirtualizationLogs"}[r.Rng.Intn(2)]
+				r.Count("caller-cancel")
+			}
+		case 1, 2:
+			o.RPC = true
+			o.RPCSendFailFrom = []int{0, 1, 2, 4}[r.Rng.Intn(4)]
+			r.Count("rpc")
+		}
 		run(scen{op: o, fault: f, before: r.Rng.Intn(3)}, "")
 	}
 	r.Finish("run-and-wait calls (count 1-3, stdin on/off, scripted logs/attach/wait outcomes, exit code 0 or 7) on 2 pods x 3 nodes of the real Calcium with an optional single injected fault; corpus of fixed scenarios first; non-trivial = a fault was hit or the call returned an error")
